@@ -32,12 +32,16 @@ UNIVERSE = {
     "w": {"root": "plain/w/w.rs", "files": {"plain/w/w.rs": "fn w() {}\r\nfn w2() {}\r\n"}},
     # the out-of-line module of `m`, given as an input of its own
     "s": {"root": "plain/m/sub.rs", "files": {"plain/m/sub.rs": "fn  s( ){}\n"}},
+    # emitting this file FAILS under --backup (its temporary name t.tmp is a directory); in every
+    # other mode it is an unformatted file like `u`
+    "t": {"root": "plain/t/t.rs", "files": {"plain/t/t.rs": "fn  t( ){}\n"}},
     "x": {"root": "xd/x.rs",
           "files": {"xd/x.rs": f'fn  x( ){{\n    let s = "{LONG}";\n}}\n'}},
 }
 CONFIGS = {"ws/rustfmt.toml": "tab_spaces = 2\n", "ws/member/rustfmt.toml": "tab_spaces = 8\n",
            "xd/rustfmt.toml": "error_on_line_overflow = true\nerror_on_unformatted = true\n"}
-MODES = {"files": [], "check": ["--check"], "stdout": ["--emit", "stdout"],
+DIRS = ["plain/t/t.tmp"]
+MODES = {"files": [], "backup": ["--backup"], "check": ["--check"], "stdout": ["--emit", "stdout"],
          "json": ["--emit", "json"],
          "checkU": ["--check", "--config", "newline_style=Unix"]}
 
@@ -52,6 +56,8 @@ def make_tree(d):
         p = d / rel
         p.parent.mkdir(parents=True, exist_ok=True)
         p.write_text(text)
+    for rel in DIRS:
+        (d / rel).mkdir(parents=True, exist_ok=True)
 
 
 def norm(s, d):
@@ -65,8 +71,13 @@ def project(ids, mode, d, out, err):
     for fid in ids:
         spec = UNIVERSE[fid]
         rels = sorted(spec["files"])
-        if mode in ("files", "check", "checkU"):
+        if mode in ("files", "backup", "check", "checkU"):
             h = "|".join(str(core.fnv((d / r).read_bytes())) for r in rels)
+            if mode == "backup":
+                # ... and the backups: present or not, and their bytes
+                h += "|" + "|".join(
+                    str(core.fnv(Path(str(d / r)[:-3] + ".bk").read_bytes()))
+                    if Path(str(d / r)[:-3] + ".bk").is_file() else "-" for r in rels)
             if mode in ("check", "checkU"):
                 blocks = [b for b in re.split(r"(?=^Diff in )", out_n, flags=re.M)
                           if any(("<T>/" + r) in b.split("\n", 1)[0] for r in rels)]
@@ -113,6 +124,10 @@ def sections(mode, out, d):
     return res          # in the order printed
 
 
+# orders with the input whose emission fails under --backup: what comes after it is emitted as
+# if it had come alone
+EXTRA_ORDERS = [["t", "u"], ["u", "t"], ["t", "u", "f"], ["t", "m"], ["e", "t", "u"],
+                ["t", "o", "i"], ["t", "t", "u"]]
 OVERLAPS = [["w", "u"], ["u", "w"], ["w", "u", "w"], ["u", "u"], ["x", "x"], ["e", "e"], ["m", "s"], ["s", "m"], ["u", "m", "u"],
             ["s", "s", "m"], ["m", "m"], ["o", "i", "o"], ["s", "u", "s"]]
 
@@ -222,6 +237,10 @@ def run(tier, seed, replay=None):
             if len(o) >= 2:
                 for m in modes:
                     jobs.append((o, m))
+    for o in EXTRA_ORDERS:
+        for m in modes:
+            if o.count("t") == 1 or m == "backup":
+                jobs.append((o, m))
     n_order_jobs = len(jobs)
     for o in OVERLAPS:
         for m in modes:
@@ -293,7 +312,7 @@ def run(tier, seed, replay=None):
             if overlap:
                 # the same path is reached more than once: the per-id projections overlap, only
                 # the union law and the exit status are meaningful (files mode: final bytes)
-                if m == "files":
+                if m in ("files", "backup"):
                     rec["single_hash"] = rec["hash"] if all(
                         a == b for a, b in zip(r["hash"], [single[(m, f)]["hash"][0] for f in o])
                     ) else rec["single_hash"]
